@@ -59,6 +59,28 @@ pub fn raw_messages() -> Vec<AnyMessage> {
     out
 }
 
+/// EVERY payload shape of every network2 message in the mc-proto enumerator (not one per
+/// variant): boundary values of peer-chosen fields (counts, amounts, slots, cookies, sizes).
+pub fn all_payload_shapes() -> Vec<AnyMessage> {
+    let chans = [0u16, 2, 3, 4, 8, 10, 18, 19];
+    let mut seen = BTreeSet::new();
+    let mut out = vec![];
+    for (stack, _proto, _variant, bytes) in mc_proto::msgs::all_messages() {
+        if stack != "pallas-network2" || bytes.len() > 70_000 {
+            continue;
+        }
+        for c in chans {
+            let mut payload = bytes.clone();
+            if let Ok(Some(m)) = mc_core::catch(|| AnyMessage::from_payload(c, &mut payload)) {
+                if payload.is_empty() && seen.insert((c, bytes.clone())) {
+                    out.push(m);
+                }
+            }
+        }
+    }
+    out
+}
+
 fn initiator_events(cfg: &Cfg, nraw: usize) -> Vec<Ev> {
     let mut v = vec![Ev::House, Ev::Idle, Ev::StartSync, Ev::ReqBlocks];
     for p in 0..cfg.peers {
@@ -398,6 +420,56 @@ pub fn run(ctx: Ctx) -> ! {
         }
         (count.into_inner(), depth)
     };
+    // ---------------- payload sweep: every payload shape of every message, delivered to an
+    // initialized peer of the responder and of the initiator (twice, with housekeeping between)
+    let sweep = {
+        let shapes = all_payload_shapes();
+        if shapes.len() < 100 {
+            mc_core::report::machinery_failure(&format!("C29: only {} payload shapes from the mc-proto enumerator", shapes.len()));
+        }
+        let prop = raw[i_prop].clone();
+        let acc = raw[i_acc].clone();
+        let n = std::sync::atomic::AtomicU64::new(0);
+        shapes.par_iter().for_each(|m| {
+            let label = format!("{}:{}", m.channel(), msg_label(m));
+            // responder
+            let r = mc_core::catch(std::panic::AssertUnwindSafe(|| {
+                let mut b = ResponderBehavior::default();
+                let waker = futures::task::noop_waker();
+                let mut cx = std::task::Context::from_waker(&waker);
+                let mut step = |b: &mut ResponderBehavior, ev: Option<InterfaceEvent<AnyMessage>>| {
+                    match ev {
+                        Some(e) => b.handle_io(e),
+                        None => b.execute(ResponderCommand::Housekeeping),
+                    }
+                    while let std::task::Poll::Ready(Some(_)) = futures::StreamExt::poll_next_unpin(b, &mut cx) {}
+                };
+                step(&mut b, Some(InterfaceEvent::Connected(pid(0))));
+                step(&mut b, Some(InterfaceEvent::Recv(pid(0), vec![prop.clone()])));
+                step(&mut b, Some(InterfaceEvent::Recv(pid(0), vec![m.clone()])));
+                step(&mut b, None);
+                step(&mut b, Some(InterfaceEvent::Recv(pid(0), vec![m.clone()])));
+                step(&mut b, Some(InterfaceEvent::Sent(pid(0), m.clone())));
+                step(&mut b, Some(InterfaceEvent::Disconnected(pid(0))));
+            }));
+            n.fetch_add(1, std::sync::atomic::Ordering::Relaxed);
+            if let Err(p) = r {
+                ctx.violation(p.site(), format!("responder panicked on payload shape {label} ({} bytes) delivered to an initialized peer: {} at {}", m.payload().len(), p.message, p.location), json!({"behaviour": "responder", "family": "payload-sweep", "message": label, "payload_hex": hex::encode(m.payload())}));
+            }
+            // initiator (leios-capable and plain accept)
+            for accept in [acc.clone(), raw[i_accl].clone()] {
+                let list = vec![prop.clone(), accept, m.clone()];
+                let hist = vec![Ev::Include(0), Ev::House, Ev::Connected(0), Ev::RawSent(0, 0), Ev::RawRecv(0, 1), Ev::RawRecv(0, 2), Ev::House, Ev::RawRecv(0, 2), Ev::RawSent(0, 2), Ev::Disconnected(0)];
+                n.fetch_add(1, std::sync::atomic::Ordering::Relaxed);
+                if let Err((i, p)) = World::replay(&cfg, &hist, &list) {
+                    if is_io(&hist[i]) {
+                        ctx.violation(p.site(), format!("initiator panicked in step {i} of the payload sweep with {label} ({} bytes): {} at {}", m.payload().len(), p.message, p.location), json!({"behaviour": "initiator", "family": "payload-sweep", "message": label, "payload_hex": hex::encode(m.payload()), "panicking_step": i}));
+                    }
+                }
+            }
+        });
+        (shapes.len(), n.into_inner())
+    };
     let rcount = rcount.into_inner();
     let mut cp = command_panics.into_inner().unwrap();
     cp.extend(house_panics.into_inner().unwrap());
@@ -412,6 +484,7 @@ pub fn run(ctx: Ctx) -> ! {
         "samples" => samples,
         "initiator" => json!({"states": st_i.states, "transitions": st_i.transitions, "max_depth": st_i.max_depth, "capped": st_i.capped, "fixpoint": st_i.fixpoint, "per_prefix": per_prefix, "events_in_alphabet": events.len()}),
         "responder_connection_tree" => json!({"histories": conn_grid.0, "tree_depth": conn_grid.1, "configurations": "(max_connections_per_ip, max_error_count) in {(1,1), (2,0), (2,1)}", "alphabet": "Connected / Disconnected / Error for three connections from one host, Housekeeping, a keep-alive violation and a version proposal on connection 0"}),
+        "payload_sweep" => json!({"payload_shapes": sweep.0, "histories": sweep.1, "rule": "every payload shape of every network2 message of the mc-proto enumerator (<= 70 kB), delivered twice (housekeeping in between) and confirmed once as Sent, to an initialized peer of the responder and of the initiator (plain and leios accept)"}),
         "responder_handshake_grid" => json!({"histories": hs_grid, "responder_version_tables": [[13], [11, 13, 14], [11, 14], [12, 13, 14, 15]], "proposals": "every subset of versions 10..=15"}),
         "responder" => json!({"histories": rcount, "tree_depth": rdepth, "tree_depth_behind_ban_prefixes": 3, "prefixes": prefixes.len(), "events_in_alphabet": revs.len(), "outputs_drained": outs_seen.into_inner()}),
         "raw_messages" => labels,
